@@ -1,0 +1,50 @@
+// SPDX-FileCopyrightText: 2026 The Pion community <https://pion.ly>
+// SPDX-License-Identifier: MIT
+
+//go:build verif
+
+package report
+
+// Machine-checked contracts (comment-only; read by /verif/govc, never compiled into a normal build).
+//
+// ---- sender stream (property C07)
+//
+// sent: ghost count of all packets written on the stream (unbounded), so that the 32-bit counter is its residue.
+//@ ghost (senderStream) sent uint64
+//@
+//@ pred senderInv(s *senderStream) := s.packetCount == uint32(s.sent)
+//@
+//@ func newSenderStream
+//@   modifies nothing
+//@   ghost result.sent := 0
+//@   ensures fresh: fresh(result)
+//@   ensures init: result.ssrc == ssrc && result.useLatestPacket == useLatestPacket && result.packetCount == 0 && result.octetCount == 0
+//@   ensures rate: result.clockRate == float64(clockRate)
+//@   ensures inv: senderInv(result)
+//@
+//@ func (*senderStream).processRTP
+//@   requires inv: senderInv(stream)
+//@   requires short_history: stream.sent < (1 << 62)
+//@   requires hdr: header != nil
+//@   modifies stream.lastRTPSN, stream.lastRTPTimeRTP, stream.lastRTPTimeTime, stream.packetCount, stream.octetCount, stream.m
+//@   ghost stream.sent := old(stream.sent) + 1
+//@   ensures inv: senderInv(stream)
+//@   ensures packets: stream.packetCount == old(stream.packetCount) + 1
+//@   ensures octets: stream.octetCount == old(stream.octetCount) + uint32(len(payload))
+//@   ensures ref_moves_only_forward: !stream.useLatestPacket && old(stream.sent) != 0
+//@        && !(header.SequenceNumber - old(stream.lastRTPSN) > 0 && header.SequenceNumber - old(stream.lastRTPSN) < 32768)
+//@        ==> stream.lastRTPSN == old(stream.lastRTPSN) && stream.lastRTPTimeRTP == old(stream.lastRTPTimeRTP) && stream.lastRTPTimeTime == old(stream.lastRTPTimeTime)
+//@   ensures ref_follows_newest: stream.useLatestPacket || old(stream.sent) == 0
+//@        || (header.SequenceNumber - old(stream.lastRTPSN) > 0 && header.SequenceNumber - old(stream.lastRTPSN) < 32768)
+//@        ==> stream.lastRTPSN == header.SequenceNumber && stream.lastRTPTimeRTP == header.Timestamp
+//@   ensures first_packet_of_frame: (stream.useLatestPacket || old(stream.sent) == 0
+//@        || (header.SequenceNumber - old(stream.lastRTPSN) > 0 && header.SequenceNumber - old(stream.lastRTPSN) < 32768))
+//@        ==> stream.lastRTPTimeTime == ite(header.Timestamp != old(stream.lastRTPTimeRTP), now, old(stream.lastRTPTimeTime))
+//@
+//@ func (*senderStream).generateReport
+//@   modifies stream.m
+//@   ensures fresh: fresh(result)
+//@   ensures ssrc: result.SSRC == stream.ssrc
+//@   ensures counts: result.PacketCount == stream.packetCount && result.OctetCount == stream.octetCount
+//@   ensures ntp: result.NTPTime == ntp.ToNTP(now)
+//@   ensures rtp_time: result.RTPTime == stream.lastRTPTimeRTP + uint32(now.Sub(stream.lastRTPTimeTime).Seconds() * stream.clockRate)
